@@ -9,7 +9,7 @@ WINDOW_CONST = "MAX_REORG_HISTORY_SIZE"
 
 def _engine_fn(F, method):
     c = [f for f in F.fns.values() if f.kind == "method" and f.j.get("method") == method and f.name.startswith("engine::engine::BRC20ProgEngine::")]
-    return c[0] if len(c) == 1 else None
+    return F.inlined(c[0]) if len(c) == 1 else None
 
 
 def first_write_blocks(fn, LMsites=None):
@@ -74,7 +74,7 @@ def clause_engine_reorg(R, F, CG):
     for key in ("above", "deep"):
         if found[key]:
             for w in writes:
-                R.ob(fn.dominates(found[key][0], w.bb), "DOM-before", w.where(), "DOM-before|engine.reorg|%s" % key,
+                R.ob(fn.sdominates(found[key][0], w.bb), "DOM-before", w.where(), "DOM-before|engine.reorg|%s" % key,
                      "the %s check does not dominate the write" % key)
     # accepted *whenever* the target is not above the tip and inside the window: every refusal decision of engine.reorg is one
     # of the documented ones (block under construction, above the tip, outside the window) or a propagated error of a callee
@@ -114,7 +114,7 @@ def clause_history_window(R, F):
             s = show(a)
             if a[0] == "param" and a[1] == 2:
                 return "n"
-            if "self.cache" in s and ("last" in s or "next_back" in s):
+            if mentions(a, ".cache") and (mentions(a, "last") or mentions(a, "next_back") or mentions(a, "last_key_value")):
                 return "last"
             return None
         for fm, line in return_form(f):
@@ -125,7 +125,11 @@ def clause_history_window(R, F):
     R.ob(ok, "GUARD", f.where() if f else "history", "GUARD|is_old|form",
          "is_old is `%s`; expected `last + %s(=10) < n`" % (txt, WINDOW_CONST),
          sample={"rule": "GUARD", "fn": "is_old", "form": txt})
-    # remove_old_values filter closure: key + W <= latest
+    # remove_old_values: the "old" predicate is  key + W <= latest  (found in whichever closure of the function mentions the
+    # window constant), and the newest old entry is kept together with everything newer.  Two spellings of the second part are
+    # recognised: removing all but the last of the old keys (`take(len - 1)`), or retaining `key >= newest old key` where that
+    # key is the `last()` / `max()` of the filtered keys.
+    rov = [g for g in F.fns.values() if g.name.endswith("remove_old_values") and g.kind == "method"]
     cl = [g for g in F.fns.values() if g.kind == "closure" and "remove_old_values" in g.name]
     ok = False
     txt = "absent"
@@ -138,27 +142,44 @@ def clause_history_window(R, F):
                 return "latest"
             return None
         for fm, line in return_form(g):
+            if not any(WINDOW_CONST in c for c in fm.lin.consts):
+                continue
             r, k, rel, bad = fm.roles(role2)
             txt = fm.text(role2)
-            if not bad and r == {"key": 1, "latest": -1} and k == 10 and rel == "<=" and any(WINDOW_CONST in c for c in fm.lin.consts):
+            if not bad and r == {"key": 1, "latest": -1} and k == 10 and rel == "<=":
                 ok = True
     R.ob(ok, "GUARD", cl[0].where() if cl else "history", "GUARD|remove_old_values|form",
          "pruning filter is `%s`; expected `key + %s(=10) <= latest`" % (txt, WINDOW_CONST),
          sample={"rule": "GUARD", "fn": "remove_old_values", "form": txt})
-    # keeps at least one: the removal loop takes len-1 of the candidates
-    rov = [g for g in F.fns.values() if g.name.endswith("remove_old_values") and g.kind == "method"]
     if rov:
         g = rov[0]
-        takes = [c for c in g.calls() if (c.method or "") == "take" and not g.is_cleanup(c.bb)]
         okk = False
-        for c in takes:
-            l = lin(origin(g, c.args[1]))
-            if l.k == -1 and len(l.terms) == 1 and "len" in show(list(l.terms)[0]):
-                okk = True
+        how = None
+        for c in g.calls():
+            if g.is_cleanup(c.bb):
+                continue
+            if (c.method or "") == "take":
+                l = lin(origin(g, c.args[1]))
+                if l.k == -1 and len(l.terms) == 1 and "len" in show(list(l.terms)[0]):
+                    okk, how = True, "take(len-1)"
+            if (c.method or "") == "retain":
+                for cid in ((c.func or {}).get("arg_cl") or []):
+                    rc = F.fns.get(cid)
+                    if rc is None:
+                        continue
+                    for fm, line in return_form(rc):
+                        ts = list(fm.lin.terms.items())
+                        # key >= bound   <=>   bound - key <= 0
+                        if fm.rel == "<=" and fm.lin.k == 0 and len(ts) == 2 and sorted(v for _, v in ts) == [-1, 1]:
+                            bound = [a for a, v in ts if v == 1][0]
+                            keyt = [a for a, v in ts if v == -1][0]
+                            import wire as _W
+                            bt = _W.resolve(F, rc, bound)
+                            if "param" in show(keyt) and (mentions(bt, "last") or mentions(bt, "max") or mentions(bt, "next_back")) and mentions(bt, "filter"):
+                                okk, how = True, "retain(key >= last(old keys))"
         R.ob(okk, "GUARD", g.where(), "GUARD|remove_old_values|all-but-last",
-             "pruning no longer removes all-but-the-last old entry (take(len - 1))",
-             sample={"rule": "GUARD", "fn": "remove_old_values", "row": "take(len-1)"})
-        # upvar latest <- parameter
+             "pruning no longer keeps exactly the newest old entry and everything newer (neither `take(len - 1)` over the old keys nor "
+             "`retain(key >= last old key)`)", sample={"rule": "GUARD", "fn": "remove_old_values", "row": how})
     # retain in reorg: key <= N
     cl = [g for g in F.fns.values() if g.kind == "closure" and "BlockHistoryCache" in g.name and "::reorg::" in g.name]
     ok = False
@@ -188,18 +209,15 @@ def clause_history_window(R, F):
             s = show(a)
             if a[0] == "param" and a[1] == 2:
                 return "block"
-            if "cache" in s and ("last" in s or "next_back" in s):
+            if mentions(a, ".cache") and (mentions(a, "last") or mentions(a, "next_back") or mentions(a, "last_key_value")):
                 return "last"
             return None
         got = None
-        for (b, s, fm, line) in edge_forms(g):
+        for (fm, panics) in _no_return_forms(F, g):
             r, k, rel, bad = fm.roles(role4)
-            if bad or set(r) != {"block", "last"} or rel != "<=":
+            if bad or set(r) != {"block", "last"} or rel != "<=" or not panics:
                 continue
-            # edge that reaches a panic (no return reachable)
-            reach = g.reachable(s)
-            if not any(x in reach for x in g.return_blocks()):
-                got = (r, k, fm.text(role4))
+            got = (r, k, fm.text(role4))
         forms[m] = got
         R.ob(got is not None and got[0] == {"block": 1, "last": -1} and got[1] == 1, "GUARD", g.where(), "GUARD|history.%s|monotone" % m,
              "%s refuses `%s`; expected panic iff `block < last`" % (m, got[2] if got else "nothing"),
@@ -213,10 +231,10 @@ def clause_history_window(R, F):
             lat = [c for c in g.calls() if (c.method or "") == "latest" and not g.is_cleanup(c.bb)]
             ins = [c for c in g.calls() if (c.method or "") == "insert" and not g.is_cleanup(c.bb)]
             rov2 = [c for c in g.calls() if (c.method or "") == "remove_old_values" and not g.is_cleanup(c.bb)]
-            R.ob(bool(ins) and bool(rov2) and all(g.dominates(i.bb, r.bb) for i in ins for r in rov2), "DOM-order", g.where(),
+            R.ob(bool(ins) and bool(rov2) and all(g.sdominates(i.bb, r.bb) for i in ins for r in rov2), "DOM-order", g.where(),
                  "DOM-order|history.%s|insert<prune" % m, "%s does not insert before pruning" % m,
                  sample={"rule": "DOM-order", "fn": "history." + m, "order": "latest < insert < remove_old_values"})
-            R.ob(bool(lat) and bool(ins) and all(g.dominates(l.bb, i.bb) for l in lat for i in ins), "DOM-order", g.where(),
+            R.ob(bool(lat) and bool(ins) and all(g.sdominates(l.bb, i.bb) for l in lat for i in ins), "DOM-order", g.where(),
                  "DOM-order|history.%s|dedup<insert" % m, "%s does not check the latest value before inserting" % m)
             # prune argument is the block just written
             for r in rov2:
@@ -229,10 +247,41 @@ def clause_history_window(R, F):
                      "history entry is keyed by `%s`, not by the block number argument" % show(a))
 
 
+def _no_return_forms(F, g, depth=2):
+    """[(Form, leads_to_no_return)] for the comparison edges of g, plus those of local methods of the same type that g calls
+    before anything else can return (the call dominates every return block), with the callee's parameters replaced by the
+    call's arguments - so a guard moved into a `require_...` helper reads the same as the inline one"""
+    from guards import Form, Lin
+    from terms import subst_params
+    out = []
+    for (b, s2, fm, line) in edge_forms(g):
+        reach = g.reachable(s2)
+        out.append((fm, not any(x in reach for x in g.return_blocks())))
+    if depth <= 0:
+        return out
+    rets = g.return_blocks()
+    for c in g.calls():
+        h = F.fns.get(c.target_id) if c.target_id else None
+        if h is None or not h.blocks or g.is_cleanup(c.bb) or h.id == g.id:
+            continue
+        if (h.j.get("self_ty") or "").split("<")[0] != (g.j.get("self_ty") or "").split("<")[0]:
+            continue
+        if not all(g.sdominates(c.bb, r) for r in rets):
+            continue
+        args = tuple(origin(g, a) for a in c.args)
+        for (fm, panics) in _no_return_forms(F, h, depth - 1):
+            terms = {}
+            for a, coef in fm.lin.terms.items():
+                a2 = subst_params(a, args)
+                terms[a2] = terms.get(a2, 0) + coef
+            out.append((Form(Lin(fm.lin.k, terms, fm.lin.flags, fm.lin.consts), fm.rel), panics))
+    return out
+
+
 def _table_fn(F, tname, method):
     c = [f for f in F.fns.values() if f.kind == "method" and f.j.get("method") == method and (f.j.get("self_ty") or "").startswith(tname)
          and not f.j.get("trait")]
-    return c[0] if len(c) == 1 else None
+    return F.inlined(c[0]) if len(c) == 1 else None
 
 
 def clause_table_reorg_visits_all(R, F, crash_clause=False):
@@ -267,12 +316,12 @@ def clause_table_reorg_visits_all(R, F, crash_clause=False):
              sample={"rule": "DOM-all", "fn": "table.reorg", "step": k})
     for k in ("per-key", "retrieve"):
         c = need.get(k)
-        ok = c is not None and all(need.get(x) is not None and fn.dominates(need[x].bb, c.bb) for x in ("scan", "mem"))
+        ok = c is not None and all(need.get(x) is not None and fn.sdominates(need[x].bb, c.bb) for x in ("scan", "mem"))
         R.ob(ok, "DOM-order", fn.where(), "DOM-order|table.reorg|%s" % k,
              "the %s step is missing or is not preceded by both key collections" % k,
              sample={"rule": "DOM-order", "fn": "table.reorg", "step": k})
     if "per-key" in need and "commit" in need:
-        R.ob(not fn.dominates(need["commit"].bb, need["per-key"].bb), "DOM-order", fn.where(), "DOM-order|table.reorg|rollback<commit",
+        R.ob(not fn.sdominates(need["commit"].bb, need["per-key"].bb), "DOM-order", fn.where(), "DOM-order|table.reorg|rollback<commit",
              "commit precedes the per-key rollback")
     # every history that was loaded stays in memory until the commit: the commit must rewrite the latest value of *every*
     # visited key (that is what lets a repeated reorg repair a crash between a history-row and a latest-row write)
@@ -283,7 +332,7 @@ def clause_table_reorg_visits_all(R, F, crash_clause=False):
             if m in ("remove", "retain", "clear", "drain", "clear_cache", "remove_entry", "extract_if") and not fn.is_cleanup(c.bb) and c.args:
                 recv = show(origin(fn, c.args[0]))
                 if ("self.cache" in recv or m == "clear_cache") and "cache_db" not in recv:
-                    if not fn.dominates(need["commit"].bb, c.bb):
+                    if not fn.sdominates(need["commit"].bb, c.bb):
                         droppers.append(c)
         R.ob(not droppers, "DOM-order", fn.where(), "DOM-order|table.reorg|no-drop-before-commit",
              "BlockCachedDatabase::reorg drops loaded histories from memory before the commit (%s): their latest-value rows are not "
